@@ -120,3 +120,42 @@ def _forall_env(self, args, kwargs, fr, node):
         body = z3.Implies(z3.And(*extra), body)
     from .classtable import TBool
     return SV(z3.ForAll([rho], body), TBool())
+
+
+_EQUIV = {}
+
+
+def _equiv_decl(self):
+    """equiv(a, b): a defined predicate  ForAll rho. ev(a, rho) == ev(b, rho).  It is kept as an atom
+    (so that lemmas can have it as a quantifier-free hypothesis); its definition is added to every obligation
+    that mentions an application, and a goal `equiv(a, b)` is proved at a fresh valuation."""
+    from .classtable import TNode, TAbs
+    from .contracts import SPECS
+    from .interp import QPREDS
+    if 'decl' not in _EQUIV:
+        E = TNode('Expr').z3sort()
+        d = z3.Function('equiv', E, E, z3.BoolSort())
+        _EQUIV['decl'] = d
+        ev_sp = SPECS['ev']
+
+        def build(a, b, _self=self):
+            f = _self.declare_spec(ev_sp)
+            if not ev_sp.defined:
+                _self.define_spec(ev_sp)
+            rho = z3.Const('rho!q', TAbs('Env').z3sort())
+            return z3.ForAll([rho], f(a, rho) == f(b, rho))
+        QPREDS[d.get_id()] = build
+    return _EQUIV['decl']
+
+
+@function_model('specs.sem.equiv')
+def _equiv(self, args, kwargs, fr, node):
+    from .classtable import TNode, TBool
+    d = _equiv_decl(self)
+    a, b = [self.term(x, TNode('Expr')) for x in args]
+    self.specs_used.add('ev')
+    sp = __import__('pyvc.contracts', fromlist=['SPECS']).SPECS['ev']
+    self.declare_spec(sp)
+    if not sp.defined:
+        self.define_spec(sp)
+    return SV(d(a, b), TBool())
